@@ -38,7 +38,7 @@ def grids():
     return {
         "2d": {"kind": "cart", "shape": [12, 12], "dx": [1.0, 1.0], "origin": [0.0, 0.0], "periodic": [True, True]},
         "1d": {"kind": "cart", "shape": [16], "dx": [0.5], "origin": [-2.0], "periodic": [False]},
-        "cyl": {"kind": "cyl", "shape": [6, 12], "R": 6.0, "z": [0.0, 12.0], "periodic_z": False},
+        "cyl": {"kind": "cyl", "shape": [6, 16], "R": 6.0, "z": [0.0, 12.0], "periodic_z": False},  # dr = 1, dz = 0.75
     }
 
 
@@ -48,7 +48,7 @@ def make_field(gk, name):
     from droplets import DiffuseDroplet, Emulsion
 
     g = grids()[gk]
-    grid = geom.make_grid(g)
+    grid = geom.make_grid(g, share=True)  # as in a simulation, all frames live on ONE grid object
     if name == "scaled":
         return make_field(gk, "two") * 3.0 - 1.0
     if name == "zeros":
